@@ -30,6 +30,8 @@ pub struct Cfg {
     backup_ok: bool,
     /// builder order: handle() before the strategy method (only meaningful with a predicate)
     pred_first: bool,
+    /// an on_event listener is registered (must not change anything)
+    listener: bool,
     /// per request: inner outcome 0 ok / 1 err class 1 / 2 err class 2, latency us, payload
     reqs: Vec<(u8, u64, u64)>,
 }
@@ -46,7 +48,7 @@ pub fn cfg_for(index: usize, rng: &mut Prng) -> Cfg {
     for _ in 0..rng.range(0, 4) {
         reqs.push((rng.below(3) as u8, *rng.pick(&[0u64, 1000, 5000]), rng.next()));
     }
-    Cfg { strat, pred, backup_ok, pred_first, reqs }
+    Cfg { strat, pred, backup_ok, pred_first, listener: pred != 0 && rng.chance(0.5), reqs }
 }
 
 fn map_err(e: &FallbackError<PErr>) -> Outcome {
@@ -66,6 +68,7 @@ pub fn run(cfg: &Cfg, seed: u64) -> Arc<World> {
             wl.log(Ev::Listener { name: what.to_string(), a, b });
         };
         let backup_ok = cfg.backup_ok;
+        LISTEN.with(|l| l.set(cfg.listener));
         let layer: FallbackLayer<Req, Resp, PErr> = {
             let shortcut = cfg.pred == 0;
             match cfg.strat {
@@ -135,8 +138,18 @@ pub fn run(cfg: &Cfg, seed: u64) -> Arc<World> {
 
 type B = tower_resilience_fallback::FallbackConfigBuilder<Req, Resp, PErr>;
 
+thread_local! {
+    /// whether the configuration being built registers an event listener
+    static LISTEN: std::cell::Cell<bool> = const { std::cell::Cell::new(false) };
+}
+
 /// builder with the predicate applied before (`first`) or after the strategy method `f`
 fn ordered(pred: u8, first: bool, f: impl FnOnce(B) -> B) -> B {
+    let listen = LISTEN.with(|l| l.get());
+    let f = move |b: B| {
+        let b = f(b);
+        if listen { b.on_event(|_e| {}) } else { b }
+    };
     if first {
         f(with_pred(FallbackLayer::builder(), pred))
     } else {
@@ -266,6 +279,9 @@ pub fn judge(cfg: &Cfg, log: &[Rec]) -> Report {
     }
     rep.count("requests", cfg.reqs.len() as u64);
     rep.bucket(format!("{:?} pred={} backup_ok={} pred_first={}", cfg.strat, cfg.pred, cfg.backup_ok, cfg.pred_first));
+    if cfg.listener {
+        rep.count("configurations_with_listener", 1);
+    }
     rep.nontrivial = invoked;
     rep
 }
